@@ -14,6 +14,10 @@ def models(quick):
     for L in Ls:
         out.append((f'XXZ(L={L})', lambda L=L: XXZChain({'L': L, 'Jxx': 1., 'Jz': 1.3, 'hz': 0.05, 'bc_MPS': 'finite'}), ['up', 'down']))
         out.append((f'TFI(L={L})', lambda L=L: TFIChain({'L': L, 'J': 1., 'g': 0.8, 'bc_MPS': 'finite', 'conserve': 'parity'}), ['up', 'up']))
+        if L == Ls[0] or not quick:
+            # complex couplings (Peierls phase): complex effective Hamiltonians on a real initial state
+            out.append((f'Fermion-complex-hopping(L={L})', lambda L=L: FermionChain({'L': L, 'J': np.exp(0.4j), 'V': 0.7, 'mu': 0.1, 'bc_MPS': 'finite'}),
+                        ['full', 'empty']))
         if not quick:
             out.append((f'Fermion(L={L})', lambda L=L: FermionChain({'L': L, 'J': 1., 'V': 0.7, 'mu': 0.1, 'bc_MPS': 'finite'}), ['full', 'empty']))
             out.append((f'S1-Heisenberg(L={L})', lambda L=L: SpinChain({'L': L, 'S': 1., 'Jx': 1., 'Jy': 1., 'Jz': 1., 'bc_MPS': 'finite', 'conserve': 'Sz'}), ['up', 'down']))
